@@ -822,7 +822,7 @@ func run(ctx *fw.Ctx, rep *fw.Report) {
 	if thorough {
 		requests = append(requests, 4096, 65536, 1<<20, 4<<20)
 	}
-	rep.Rule = fmt.Sprintf("complete grids, nothing sampled. SERVER: msize in %v x version strings of a grammar (%d strings: bases {9P2000.L,9P2000.l,9P2000,9P2000.u,9P2001.L,\"\"} x suffixes {\"\", .Google, .Google., .Google.N for %d numerals (canonical 0..10 and 2^32-1, leading zeros, >=2^32, signs, blanks, extra dot, hex, non-ASCII digits), .google.1, .Google.1.2, .Google.1.}; \"unknown\"; every proper prefix and 15 one-edit near misses of 9P2000.L.Google.7; four 65535-byte strings; ALL byte strings of length <= %d over {'9','P','.','L',0x00,0xff}), each as first frame of a fresh connection to the real server, reply compared with the reference function of the statement (the canonical replies for N=0..7 are themselves grid inputs, which is the parse-back check); %d sequences (Tversion twice / after attach+walk+open+read) x msize/version pairs. CLIENT: requested msize in %v (0 = default) x offered msize in %v x the same grammar offered by a fake server to the real p9.NewClient, then Attach/Walk/Open/ReadAt x {1,A-12,A-11,A-10,A,2A+1}/WriteAt x {1,A-24,A-23,A-22,A,2A+1}/Readdir/Mkdir/Symlink/Create/Mknod/WalkGetAttr/GetAttr/Close with every client frame recorded. A case is distinct by its full input tuple; distinct_nontrivial counts distinct (input class, observed outcome) pairs.",
+	rep.Rule = fmt.Sprintf("complete grids, nothing sampled. SERVER: msize in %v x version strings of a grammar (%d strings: bases {9P2000.L,9P2000.l,9P2000,9P2000.u,9P2001.L,\"\"} x suffixes {\"\", .Google, .Google., .Google.N for %d numerals (canonical 0..10 and 2^32-1, leading zeros, >=2^32, signs, blanks, extra dot, hex, non-ASCII digits), .google.1, .Google.1.2, .Google.1.}; \"unknown\"; every proper prefix and 15 one-edit near misses of 9P2000.L.Google.7; four 65535-byte strings; ALL byte strings of length <= %d over {'9','P','.','L',0x00,0xff}), each as first frame of a fresh connection to the real server, reply compared with the reference function of the statement (the canonical replies for N=0..7 are themselves grid inputs, which is the parse-back check); %d sequences (Tversion twice / after attach+walk+open+read) x msize/version pairs; 12 ordered pairs of Tversions IN FLIGHT TOGETHER on one connection under all handler interleavings (DPOR), each reply judged against its own request. CLIENT: requested msize in %v (0 = default) x offered msize in %v x the same grammar offered by a fake server to the real p9.NewClient, then Attach/Walk/Open/ReadAt x {1,A-12,A-11,A-10,A,2A+1}/WriteAt x {1,A-24,A-23,A-22,A,2A+1}/Readdir/Mkdir/Symlink/Create/Mknod/WalkGetAttr/GetAttr/Close with every client frame recorded. A case is distinct by its full input tuple; distinct_nontrivial counts distinct (input class, observed outcome) pairs.",
 		msizes, len(g), len(numeralsQuick)+map[bool]int{true: len(numeralsThorough)}[thorough], map[bool]int{false: 2, true: 4}[thorough], len(seqCases()), requests, offers)
 	rep.Assumptions = append(rep.Assumptions,
 		"reading of the version grammar: see props/c12/ref.go classify (leading zeros, plus sign, non-ASCII digits, N>=2^32: either; minus, blanks, extra dots, hex, other bytes: must be unknown)",
@@ -913,6 +913,7 @@ func run(ctx *fw.Ctx, rep *fw.Report) {
 			}
 		}
 	}
+	runPipelined(ctx, rep)
 }
 
 func replay(ctx *fw.Ctx, rep *fw.Report, cnt *counters) {
